@@ -14,7 +14,7 @@ use std::sync::Mutex;
 pub const PROP: &str = "C13";
 
 /// (text, imports of the observed file)
-const OBSERVED: [(&str, &[&str]); 4] = [
+const OBSERVED: [(&str, &[&str]); 5] = [
     (
         "package o; import p.B; import q.C; import r.D; import zz.Other; interface Obs { void f(in B b, Thing t); C g(); Other h(); }",
         &["p.B", "q.C", "r.D", "zz.Other"],
@@ -25,10 +25,14 @@ const OBSERVED: [(&str, &[&str]); 4] = [
     ),
     ("package o; import p.B; interface Obs { void f(in B b) }", &["p.B"]),
     ("package o; enum Obs { A, B }", &[]),
+    (
+        "package o; parcelable Obs { x.B b; u.U u; p.B[] c; List<q.C> d; w.W e; Thing t; }",
+        &[],
+    ),
 ];
 
 /// pool of other files: (id, text, key registered, kind)
-const POOL: [(&str, &str, &str, &str); 18] = [
+const POOL: [(&str, &str, &str, &str); 19] = [
     ("b-itf-1", "package p; interface B { }", "p.B", "interface"),
     ("b-itf-2", "package p; import o.Obs; interface B { void x(in Obs o); const int K = 1; }", "p.B", "interface"),
     ("b-par-1", "package p; parcelable B { }", "p.B", "parcelable"),
@@ -47,6 +51,7 @@ const POOL: [(&str, &str, &str, &str); 18] = [
     ("zz-other", "package zz; interface Other { }", "zz.Other", "interface"),
     ("d-unused", "package r; enum D { A }", "r.D", "enum"),
     ("b-in-subpackage", "package p.sub; enum B { A }", "p.sub.B", "enum"),
+    ("declares-thing", "package v; parcelable Thing; parcelable Other; parcelable B; interface V { void f(in Thing t, in Other o, in B b); }", "v.V", "interface"),
 ];
 
 type Set = BTreeSet<usize>;
@@ -191,6 +196,9 @@ pub fn run(tier: Tier, seed: u64) -> i32 {
     };
     let bases: Vec<(usize, &Set)> = (0..OBSERVED.len()).flat_map(|o| sets.iter().map(move |s| (o, s))).collect();
     bases.par_iter().for_each(|(obs, base)| {
+        if stats.past_cap() {
+            return;
+        }
         let obs = *obs;
         let fb = match facts(obs, base) {
             Some(f) => f,
